@@ -31,7 +31,7 @@ def cases(tier):
 
 
 def setup(ctx):
-    contracts.install(ctx)
+    contracts.install(ctx, contracts.INDEX_CONTRACTS + contracts.CHANNEL_CONTRACTS)
 
 
 def run(ctx, spec, rng):
